@@ -67,7 +67,8 @@ CHECKS = {
                 "shard-index entries and decoded byte sizes of datasets "
                 "produced by the real command sequence over a product of "
                 "sizes x types x channels x chunk targets x storage options."
-                " The dataset directory carries different names (also ones ending in characters of '/info', a trailing slash).",
+                " The dataset directory carries different names (also ones ending in characters of '/info', a trailing slash)."
+                " Chunk counts are compared before anything is decoded; a scale without any shard file after commands that exited 0 counts as 0 chunks written.",
         "note": "Counts are integers; the dataset product is small volumes "
                 "(<= 33 voxels per axis); chunk files are recognised by the "
                 "documented names only.",
@@ -285,7 +286,8 @@ CHECKS = {
                 "imperfect-type status, sharding block, and for the 27 "
                 "voxels {0,1,n-1}^3 that T((i+1/2)*res) equals 1e6*A*i "
                 "(1e-9 relative); the compact URL form must parse back to "
-                "the identical matrix.",
+                "the identical matrix."
+                " Files are also written big-endian (every stored type x scaling x options on one direction).",
         "note": "Lattice of affines, not all invertible matrices; the "
                 "reference affine is the one the file states (float32 in "
                 "NIfTI).",
@@ -352,7 +354,8 @@ CHECKS = {
                 "(index map out[c,z,y,x] = in[x,y,z,c]); (C) raw / "
                 "compressed_segmentation 8^3, 2^3 / JPEG x 4 file layouts + "
                 "3 sharding configurations."
-                " Part of the value cases runs through main(argv) of volume-to-precomputed; ranges include descending ones (inverted contrast).",
+                " Part of the value cases runs through main(argv) of volume-to-precomputed; ranges include descending ones (inverted contrast)."
+                " Input files are also written big-endian.",
         "note": "Volumes of at most 9x4x3 voxels; uint64 targets with "
                 "min/max mapping are compared within one unit of float64 "
                 "precision (documented limitation of the tool).",
@@ -460,7 +463,8 @@ CHECKS = {
                 "decoded contents unchanged; scale-stats changes nothing; "
                 "and the all-in-one state equals the step-by-step state "
                 "(info and voxels of every scale)."
-                " Option sets include --outside-value 0, ranges through the default lower bound and descending ranges.",
+                " Option sets include --outside-value 0, ranges through the default lower bound and descending ranges."
+                " A uint8 volume with header scaling and an option set with --ignore-scaling alone are included.",
         "note": "Volumes of at most 130x20x40 voxels; the all-in-one "
                 "command has no --sharding option, so that equality is "
                 "checked for unsharded option sets only.",
